@@ -179,7 +179,11 @@ func (w *World) doOp() {
 				continue
 			}
 			p := &Policy{NS: old.NS, Name: old.Name}
-			g.policySpec(w.cl, p)
+			if f := g.flipRoles(old); f != nil && w.C.Prob(1, 3) {
+				p = f
+			} else {
+				g.policySpec(w.cl, p)
+			}
 			w.cl.Pols[p.key()] = p
 			w.mustUpdate("networkpolicies", p.api())
 			w.note(kind)
